@@ -52,6 +52,8 @@ def show(e: Expr) -> str:
         return f"{e[1]}({', '.join(show(a) for a in e[2:])})"
     if k == "if":
         return f"({show(e[2])} if {show(e[1])} else {show(e[3])})"
+    if k == "cmp":  # chained comparison: one Compare node with two operators
+        return f"({show(e[3])} {e[1]} {show(e[4])} {e[2]} {show(e[5])})"
     raise ValueError(e)
 
 
@@ -118,18 +120,21 @@ def enum_ext(n: int) -> Dict[int, List[Expr]]:
                     for b in T[j]:
                         for c in T[k]:
                             cur.append(("if", a, b, c))
+                            if size == 4:  # three leaves: every chained comparison over the leaf set
+                                for o1, o2 in (("<", "<"), ("<", ">"), ("<=", "==")):
+                                    cur.append(("cmp", o1, o2, a, b, c))
         T[size] = cur
     return T
 
 
 # ---- exact evaluation and polynomial normal form -------------------------------------------------
-def fingerprint(src: str, nvars: int = 3) -> str:
+def fingerprint(src: str, nvars: int = 3, third: str = "z") -> str:
     code = compile(src, "<c12>", "eval")
     vals = []
     env = {"abs": abs, "min": min, "max": max, "__builtins__": {}}
     pts = itertools.product(GRID, repeat=nvars)
     for p in pts:
-        loc = dict(zip(("x", "y", "z"), p))
+        loc = dict(zip(("x", "y", third), p))
         try:
             v = eval(code, env, loc)
             if isinstance(v, bool):
@@ -253,11 +258,15 @@ def mutations(e: Expr) -> Iterator[Tuple[str, Expr, bool]]:
         elif t[0] == "c":
             yield ("const", replace(e, path, ("c", t[1] + 1)), False)
         elif t[0] == "v":
-            yield ("var", replace(e, path, ("v", {"x": "y", "y": "z", "z": "x"}[t[1]])), False)
+            yield ("var", replace(e, path, ("v", {"x": "y", "y": "x", "z": "x", "X": "y"}[t[1]])), False)
         elif t[0] == "f" and t[1] in ("min", "max"):
             yield ("func", replace(e, path, ("f", "max" if t[1] == "min" else "min") + t[2:]), False)
         elif t[0] == "if":
             yield ("swap:ifelse", replace(e, path, ("if", t[1], t[3], t[2])), True)
+        elif t[0] == "cmp":
+            yield ("swap:chain", replace(e, path, ("cmp", t[1], t[2], t[3], t[5], t[4])), True)
+            if t[1] != t[2]:
+                yield ("swapops:chain", replace(e, path, ("cmp", t[2], t[1], t[3], t[4], t[5])), False)
         if t[0] == "b" and t[1] in ("+", "-"):
             yield (f"op:{t[1]}", replace(e, path, ("b", "-" if t[1] == "+" else "+", t[2], t[3])), False)
 
@@ -270,6 +279,7 @@ class Ctx:
         self.col = col
         self._sig = normalize_expression_sig_v1
         self.buckets: Dict[str, Dict[str, Any]] = {}
+        self.third = "z"  # name of the third variable: "X" in some shards (differs from "x" by case only)
 
     def sig(self, src: str) -> str:
         s = self._sig(src)
@@ -280,7 +290,7 @@ def examine(cx: Ctx, e: Expr, fragment: str, variants: List[Tuple[str, Expr]], d
     col = cx.col
     src = show(e)
     sig = cx.sig(src)
-    fp = poly_key(e) if fragment == "poly" else fingerprint(src, 2 if fragment == "ext" else 3)
+    fp = poly_key(e) if fragment == "poly" else fingerprint(src, 2 if fragment == "ext" else 3, cx.third)
     # (b) soundness: bucket by signature
     b = cx.buckets.get(sig)
     multi = False
@@ -295,6 +305,10 @@ def examine(cx: Ctx, e: Expr, fragment: str, variants: List[Tuple[str, Expr]], d
                     {"a": b["src"], "b": src, "fragment": fragment}, observed={"signature": sig[:200]},
                     expected="different signatures (values differ)")
     labels = [fragment]
+    if "cmp" in json.dumps(e):
+        labels.append("chained_comparison")
+    if cx.third == "X" and "X" in src and "x" in src:
+        labels.append("case_differing_names")
     # (a) commutation / re-association keeps the signature
     for kind, v in variants:
         vs = show(v)
@@ -335,14 +349,16 @@ def _swapped_operands(e: Expr, m: Expr):
         return (e[2], e[3])
     if e[0] == "if":
         return (e[2], e[3])
+    if e[0] == "cmp" and e[1:3] == m[1:3]:
+        return (e[4], e[5])
     return None
 
 
 # ---- random trees -------------------------------------------------------------------------------
-def random_strategy():
+def random_strategy(third: str = "z"):
     from hypothesis import strategies as st
 
-    leaf = st.one_of(st.sampled_from([("v", "x"), ("v", "y"), ("v", "z")]),
+    leaf = st.one_of(st.sampled_from([("v", "x"), ("v", "y"), ("v", third)]),
                      st.integers(-3, 3).map(lambda c: ("c", c)),
                      st.sampled_from([2 ** 53, 2 ** 53 + 1, 2 ** 63 - 1, 10 ** 30 + 7, 12345678901234567]).map(lambda c: ("c", c)))
 
@@ -354,6 +370,7 @@ def random_strategy():
             st.tuples(st.just("f"), st.just("abs"), ch),
             st.tuples(st.just("f"), st.sampled_from(["min", "max"]), ch, ch),
             st.tuples(st.just("if"), ch, ch, ch),
+            st.tuples(st.just("cmp"), st.sampled_from(["<", "<=", ">", ">=", "=="]), st.sampled_from(["<", ">", "<=", "!="]), ch, ch, ch),
         )
 
     return st.recursive(leaf, ext, max_leaves=10)
@@ -365,12 +382,12 @@ def plan(tier: str, seed: int, scale: float = 1.0) -> List[Dict[str, Any]]:
     specs = [{"kind": "poly", "n": n_poly, "shard": i, "of": of} for i in range(of)]
     specs += [{"kind": "ext", "n": 5 if tier == "quick" else 6, "shard": i, "of": 4} for i in range(4)]
     nr = int((1500 if tier == "quick" else 12000) * scale)
-    specs += [{"kind": "random", "seed": seed * 100 + i, "n": nr} for i in range(8 if tier == "quick" else 16)]
+    specs += [{"kind": "random", "seed": seed * 100 + i, "n": nr, "third": "X" if i % 2 else "z"} for i in range(8 if tier == "quick" else 16)]
     nf = int((4000 if tier == "quick" else 40000) * scale)
     from .fuzz_expr import ensure_atheris
 
     ensure_atheris()
-    specs += [{"kind": "fuzz", "seed": seed * 100 + 50 + i, "n": nf} for i in range(2 if tier == "quick" else 12)]
+    specs += [{"kind": "fuzz", "seed": seed * 100 + 50 + i, "n": nf, "third": "X" if i % 2 else "z"} for i in range(2 if tier == "quick" else 12)]
     return specs
 
 
@@ -381,6 +398,7 @@ def run_shard(spec: Dict[str, Any]) -> Dict[str, Any]:
         return run_child("c12", spec)
     col = Collector(max_hashes=3000000, hash_len=10)
     cx = Ctx(col)
+    cx.third = spec.get("third", "z")
     if spec["kind"] in ("poly", "ext"):
         T = enum_poly(spec["n"]) if spec["kind"] == "poly" else enum_ext(spec["n"])
         top = spec["n"]
@@ -399,7 +417,7 @@ def run_shard(spec: Dict[str, Any]) -> Dict[str, Any]:
         @hypothesis.seed(spec["seed"])
         @settings(max_examples=spec["n"], database=None, deadline=None, derandomize=False,
                   phases=[Phase.generate], suppress_health_check=list(HealthCheck))
-        @given(random_strategy(), st.data())
+        @given(random_strategy(spec.get("third", "z")), st.data())
         def run(e, data):
             variants = [("random_perm", permuted(e, data.draw)), ("random_perm", permuted(e, data.draw)),
                         ("mirror", mirror(e)), ("right", rebracket(e, True))]
@@ -418,7 +436,8 @@ def replay(case: Dict[str, Any]) -> List[Dict[str, Any]]:
     out = []
     a, b = case["a"], case["b"]
     sa, sb = sig(a), sig(b)
-    fa, fb = fingerprint(a), fingerprint(b)
+    third = "X" if ("X" in a or "X" in b) else "z"
+    fa, fb = fingerprint(a, 3, third), fingerprint(b, 3, third)
     if sa == sb and fa != fb:
         out.append({"check": "same_signature_different_value", "features": {"fragment": case.get("fragment", "poly")},
                     "observed": sa, "expected": "different signatures", "case": case})
@@ -436,5 +455,5 @@ def shrink_candidates(case):
 
 
 def label_requirements(tier: str) -> Dict[str, Any]:
-    return {"fuzz": 5000, "variant:mirror": 1000, "variant:random_perm": 500, "mutation:swap": 1000, "mutation:const": 1000,
+    return {"fuzz": 5000, "chained_comparison": 500, "case_differing_names": 200, "variant:mirror": 1000, "variant:random_perm": 500, "mutation:swap": 1000, "mutation:const": 1000,
             "mutation:var": 1000, "mutation:func": 100, "poly": 10000, "ext": 5000}
